@@ -100,6 +100,182 @@ Proof.
   unfold get_high. rewrite nth_set_nth_other by lia. exact Hg.
 Qed.
 
+
+(* ------------------------------------------------------------------ record-number reconstruction *)
+
+
+Definition rwin (sbit : bool) : N := if sbit then 65536 else 256.
+
+Lemma reconstruct_nowrap p sbit h : h < 9223372036854775808 ->
+  reconstruct p sbit h =
+  let window := rwin sbit in let half := window / 2 in let expected := h + 1 in
+  let candidate := (expected / window) * window + p mod window in
+  if candidate + half <=? expected then candidate + window
+  else if (expected + half <? candidate) && (window <=? candidate) then candidate - window
+  else candidate.
+Proof.
+  intro Hh. unfold reconstruct, rwin, w64. cbn zeta.
+  destruct sbit.
+  - rewrite (N.mod_small (h + 1)) by lia.
+    assert (Hc : (h + 1) / 65536 * 65536 + p mod 65536 < 9223372036854775808 + 65536) by lia.
+    rewrite (N.mod_small (_ + 65536 / 2)) by lia.
+    rewrite (N.mod_small (h + 1 + 65536 / 2)) by lia.
+    rewrite (N.mod_small (_ + 65536)) by lia. reflexivity.
+  - rewrite (N.mod_small (h + 1)) by lia.
+    assert (Hc : (h + 1) / 256 * 256 + p mod 256 < 9223372036854775808 + 256) by lia.
+    rewrite (N.mod_small (_ + 256 / 2)) by lia.
+    rewrite (N.mod_small (h + 1 + 256 / 2)) by lia.
+    rewrite (N.mod_small (_ + 256)) by lia. reflexivity.
+Qed.
+
+Lemma reconstruct_lowbits p sbit h : h < 9223372036854775808 ->
+  reconstruct p sbit h mod rwin sbit = p mod rwin sbit.
+Proof.
+  intro Hh. rewrite reconstruct_nowrap by exact Hh. cbn zeta. unfold rwin. destruct sbit.
+  - destruct (_ <=? _) eqn:E1; [lia|]. destruct (_ && _) eqn:E2; lia.
+  - destruct (_ <=? _) eqn:E1; [lia|]. destruct (_ && _) eqn:E2; lia.
+Qed.
+
+Lemma reconstruct_correct q sbit h : h < 9223372036854775808 ->
+  h + 1 < q + rwin sbit / 2 -> q <= h + 1 + rwin sbit / 2 ->
+  reconstruct (q mod rwin sbit) sbit h = q.
+Proof.
+  intros Hh H1 H2. rewrite reconstruct_nowrap by exact Hh. cbn zeta. unfold rwin in *. destruct sbit.
+  - rewrite N.mod_mod by lia. destruct (_ <=? _) eqn:E1; [lia|]. destruct (_ && _) eqn:E2; lia.
+  - rewrite N.mod_mod by lia. destruct (_ <=? _) eqn:E1; [lia|]. destruct (_ && _) eqn:E2; lia.
+Qed.
+
+Lemma reconstruct_range p sbit h : h < 9223372036854775808 ->
+  let r := reconstruct p sbit h in
+  (h + 1 < r + rwin sbit / 2 /\ r <= h + 1 + rwin sbit / 2) \/
+  (r < rwin sbit /\ h + 1 + rwin sbit / 2 < r).
+Proof.
+  intro Hh. cbn zeta. rewrite reconstruct_nowrap by exact Hh. cbn zeta. unfold rwin. destruct sbit.
+  - destruct (_ <=? _) eqn:E1; [lia|]. destruct (_ && _) eqn:E2; lia.
+  - destruct (_ <=? _) eqn:E1; [lia|]. destruct (_ && _) eqn:E2; lia.
+Qed.
+
+(* ------------------------------------------------------------------ unified header: parse / marshal, mask *)
+
+
+Lemma bytes_ok_firstn k (l : bytes) : bytes_ok l = true -> bytes_ok (firstn k l) = true.
+Proof.
+  revert k; induction l as [|x l IH]; intros [|k] H; cbn; auto.
+  unfold bytes_ok in *. cbn [forallb] in *. apply andb_prop in H. destruct H as [H1 H2].
+  rewrite H1. cbn. now apply IH.
+Qed.
+
+Lemma bytes_ok_skipn k (l : bytes) : bytes_ok l = true -> bytes_ok (skipn k l) = true.
+Proof.
+  revert k; induction l as [|x l IH]; intros [|k] H; cbn; auto.
+  unfold bytes_ok in *. cbn [forallb] in *. apply andb_prop in H. destruct H as [H1 H2]. now apply IH.
+Qed.
+
+Lemma be_enc_dec_firstn k (l : bytes) : bytes_ok l = true -> (k <= length l)%nat ->
+  be_enc k (be_dec (firstn k l)) = firstn k l.
+Proof.
+  intros Hok Hl. pose proof (be_enc_dec (firstn k l) (bytes_ok_firstn k l Hok)) as H.
+  rewrite firstn_length in H. replace (Nat.min k (length l)) with k in H by lia. exact H.
+Qed.
+
+Lemma flags_byte ct : is_ct13 ct = true ->
+  32 + (if bit_c ct then 16 else 0) + (if bit_s ct then 8 else 0) + (if bit_l ct then 4 else 0) + (ct mod 4) mod 4 = ct.
+Proof.
+  unfold is_ct13, bit_c, bit_s, bit_l. intro H.
+  destruct (_ =? 1) eqn:E1; destruct ((ct / 8) mod 2 =? 1) eqn:E2; destruct ((ct / 4) mod 2 =? 1) eqn:E3; lia.
+Qed.
+
+(* parsing a header and marshalling it again gives back the very bytes *)
+Lemma uh_unmarshal_inv n b h rest : bytes_ok b = true ->
+  uh_unmarshal n b = Some (h, rest) -> (bit_c (hd 0 b) = true -> (0 < n)%nat) ->
+  b = uh_marshal h ++ rest.
+Proof.
+  intros Hok Hu Hc. unfold uh_unmarshal in Hu. destruct b as [|ct r0]; [discriminate|].
+  cbn [hd] in Hc.
+  destruct (negb (is_ct13 ct)) eqn:Ect; [discriminate|]. apply negb_false_iff in Ect.
+  set (ncid := if bit_c ct then n else 0%nat) in *.
+  destruct (length r0 <? ncid)%nat eqn:E1; [discriminate|].
+  set (r1 := skipn ncid r0) in *. set (ns := if bit_s ct then 2%nat else 1%nat) in *.
+  destruct (length r1 <? ns)%nat eqn:E2; [discriminate|].
+  set (r2 := skipn ns r1) in *. set (nl := if bit_l ct then 2%nat else 0%nat) in *.
+  destruct (length r2 <? nl)%nat eqn:E3; [discriminate|].
+  inversion Hu; subst h rest. clear Hu.
+  assert (Hok0 : bytes_ok r0 = true).
+  { unfold bytes_ok in *. cbn [forallb] in Hok. now apply andb_prop in Hok. }
+  assert (Hok1 : bytes_ok r1 = true) by (apply bytes_ok_skipn; exact Hok0).
+  assert (Hok2 : bytes_ok r2 = true) by (apply bytes_ok_skipn; exact Hok1).
+  unfold uh_marshal, uh_flags. cbn [u_cid u_seq u_sbit u_len u_lbit u_elow].
+  assert (Hnil : is_nil (firstn ncid r0) = negb (bit_c ct)).
+  { unfold ncid. destruct (bit_c ct) eqn:Ec; [|reflexivity].
+    specialize (Hc eq_refl). destruct n as [|n']; [lia|]. unfold ncid in *. destruct r0; [cbn in E1; discriminate|reflexivity]. }
+  rewrite Hnil.
+  replace (32 + (if negb (bit_c ct) then 0 else 16) + (if bit_s ct then 8 else 0) + (if bit_l ct then 4 else 0) + (ct mod 4) mod 4) with ct
+    by (rewrite <- (flags_byte ct Ect) at 1; destruct (bit_c ct); reflexivity).
+  cbn [app]. f_equal. rewrite <- !app_assoc.
+  etransitivity; [symmetry; apply (firstn_skipn ncid r0)|]. fold r1. f_equal.
+  etransitivity; [symmetry; apply (firstn_skipn ns r1)|]. fold r2. f_equal.
+  - unfold ns in *. destruct (bit_s ct); symmetry; apply be_enc_dec_firstn; try exact Hok1; lia.
+  - etransitivity; [symmetry; apply (firstn_skipn nl r2)|]. f_equal. unfold nl in *. destruct (bit_l ct).
+    + symmetry. apply be_enc_dec_firstn; [exact Hok2|lia].
+    + reflexivity.
+Qed.
+
+Lemma lxor_bound a b k : a < 2 ^ k -> b < 2 ^ k -> N.lxor a b < 2 ^ k.
+Proof.
+  intros Ha Hb. destruct (N.eq_dec (N.lxor a b) 0) as [-> | Hne].
+  - apply N.neq_0_lt_0. apply N.pow_nonzero. lia.
+  - apply N.log2_lt_pow2; [lia|].
+    eapply N.le_lt_trans; [apply N.log2_lxor|].
+    apply N.max_lub_lt.
+    + destruct (N.eq_dec a 0) as [-> | Ha0]; [cbn; destruct (N.eq_dec k 0) as [-> | ]; [cbn in Hb; assert (b = 0) by lia; subst; cbn in Hne; lia | lia]|].
+      apply N.log2_lt_pow2; lia.
+    + destruct (N.eq_dec b 0) as [-> | Hb0]; [cbn; destruct (N.eq_dec k 0) as [-> | ]; [cbn in Ha; assert (a = 0) by lia; subst; cbn in Hne; lia | lia]|].
+      apply N.log2_lt_pow2; lia.
+Qed.
+
+Lemma lxor_invol a m : N.lxor (N.lxor a m) m = a.
+Proof. now rewrite N.lxor_assoc, N.lxor_nilpotent, N.lxor_0_r. Qed.
+
+Definition uh_seq_ok (h : uhdr) : Prop := u_seq h < (if u_sbit h then 65536 else 256).
+
+Lemma apply_mask_invol h m : uh_seq_ok h -> apply_mask (apply_mask h m) m = h.
+Proof.
+  unfold uh_seq_ok, apply_mask. destruct h as [cid sq sb ln lb el]. cbn [u_cid u_seq u_sbit u_len u_lbit u_elow].
+  intro Hs. destruct sb; f_equal.
+  - apply lxor_invol.
+  - assert (Hm : m / 256 mod 256 < 2 ^ 8) by (change (2 ^ 8) with 256; apply N.mod_lt; lia).
+    assert (Hx : N.lxor sq (m / 256 mod 256) < 2 ^ 8) by (apply lxor_bound; [exact Hs|exact Hm]).
+    change (2 ^ 8) with 256 in Hx.
+    rewrite (N.mod_small (N.lxor sq _)) by exact Hx. rewrite lxor_invol. now apply N.mod_small.
+Qed.
+
+Lemma apply_mask_seq_ok h m : uh_seq_ok h -> uh_seq_ok (apply_mask h m).
+Proof.
+  unfold uh_seq_ok, apply_mask. destruct h as [cid sq sb ln lb el]. cbn [u_cid u_seq u_sbit u_len u_lbit u_elow].
+  intro Hs. destruct sb.
+  - change 65536 with (2 ^ 16). apply lxor_bound; [exact Hs|]. change (2 ^ 16) with 65536. apply N.mod_lt. lia.
+  - apply N.mod_lt. lia.
+Qed.
+
+Lemma uh_unmarshal_seq_ok n b h rest : bytes_ok b = true -> uh_unmarshal n b = Some (h, rest) -> uh_seq_ok h.
+Proof.
+  intros Hok Hu. unfold uh_unmarshal in Hu. destruct b as [|ct r0]; [discriminate|].
+  destruct (negb (is_ct13 ct)); [discriminate|].
+  destruct (length r0 <? _)%nat; [discriminate|].
+  destruct (length (skipn _ r0) <? _)%nat eqn:E2; [discriminate|].
+  destruct (length (skipn _ (skipn _ r0)) <? _)%nat; [discriminate|].
+  inversion Hu; subst. unfold uh_seq_ok. cbn [u_seq u_sbit].
+  assert (Hok0 : bytes_ok r0 = true).
+  { unfold bytes_ok in *. cbn [forallb] in Hok. now apply andb_prop in Hok. }
+  set (r1 := skipn (if bit_c ct then n else 0%nat) r0) in *.
+  assert (Hok1 : bytes_ok r1 = true) by (apply bytes_ok_skipn; exact Hok0).
+  destruct (bit_s ct).
+  - pose proof (be_dec_bound (firstn 2 r1) (bytes_ok_firstn 2 r1 Hok1)) as Hb.
+    rewrite firstn_length in Hb. replace (Nat.min 2 (length r1)) with 2%nat in Hb by lia. exact Hb.
+  - pose proof (be_dec_bound (firstn 1 r1) (bytes_ok_firstn 1 r1 Hok1)) as Hb.
+    rewrite firstn_length in Hb. replace (Nat.min 1 (length r1)) with 1%nat in Hb by lia. exact Hb.
+Qed.
+
 (* ------------------------------------------------------------------ what a step may change *)
 
 (* everything except the queue of parked records *)
@@ -718,4 +894,507 @@ Section Recv.
     - intro H. apply dispatch_marks in H. destruct H as [-> _]. lia.
     - destruct (negb (has_prot _)); intros [].
   Qed.
+
+  (* ---------------------------------------------------------------- every output has a record behind it *)
+
+  Lemma in_deliveries os p e q : In (p, e, q) (deliveries os) <-> In (ODeliver p e q) os.
+  Proof.
+    induction os as [|o os IH]; [reflexivity|].
+    destruct o; cbn [deliveries In]; rewrite ?IH; try (split; [intro H; now right | intros [H | H]; [discriminate|exact H]]).
+    split; intros [H | H]; auto; left; now inversion H.
+  Qed.
+
+  Lemma in_marks os e q : In (e, q) (marks os) <-> In (OMark e q) os.
+  Proof.
+    induction os as [|o os IH]; [reflexivity|].
+    destruct o; cbn [marks In]; rewrite ?IH; try (split; [intro H; now right | intros [H | H]; [discriminate|exact H]]).
+    split; intros [H | H]; auto; left; now inversion H.
+  Qed.
+
+  Lemma recv_list_origin W lease o : forall rs s,
+    In o (snd (recv_list W lease s rs)) -> exists s' r, In o (snd (recv_record W lease s' r)).
+  Proof.
+    induction rs as [|r rs IH]; intros s H; [destruct H|].
+    cbn [Rec13.recv_list] in H. destruct (recv_record W lease s r) as [s1 o1] eqn:E1.
+    destruct (existsb is_err o1).
+    - exists s, r. now rewrite E1.
+    - destruct (recv_list W lease s1 rs) as [s2 o2] eqn:E2. cbn [snd] in H. apply in_app_iff in H.
+      destruct H as [H | H]; [exists s, r; now rewrite E1|].
+      apply (IH s1). now rewrite E2.
+  Qed.
+
+  Lemma run_origin W o : forall ops s,
+    In o (snd (run_ops W s ops)) -> exists lease s' r, In o (snd (recv_record W lease s' r)).
+  Proof.
+    induction ops as [|op ops IH]; intros s H; [destruct H|].
+    cbn [Rec13.run_ops] in H. destruct (step W s op) as [s1 o1] eqn:E1.
+    destruct (run_ops W s1 ops) as [s2 o2] eqn:E2. cbn [snd] in H. apply in_app_iff in H.
+    destruct H as [H | H]; [|apply (IH s1); now rewrite E2].
+    destruct op as [d | e | e | cid neg rrc | ]; cbn [Rec13.step] in E1.
+    - unfold Rec13.recv13 in E1. destruct (r_closed s); [inversion E1; subst; destruct H|].
+      destruct (unpack_datagram13 s d) as [rs|]; [|inversion E1; subst; destruct H].
+      exists true. apply (recv_list_origin W true o rs s). now rewrite E1.
+    - inversion E1; subst; destruct H.
+    - inversion E1; subst; destruct H.
+    - inversion E1; subst; destruct H.
+    - destruct (r_closed s); [inversion E1; subst; destruct H|].
+      exists false. apply (recv_list_origin W false o (r_queue s) (with_queue s [])). now rewrite E1.
+  Qed.
+
+  (* any output at all of a ciphertext record means it authenticated *)
+  Corollary effect_only_authentic W lease s b :
+    snd (recv_cipher W lease s b) <> [] -> exists body t q e, auth_cipher s b = Some (body, t, q, e).
+  Proof.
+    intro H. destruct (auth_cipher s b) as [[[[body t] q] e]|] eqn:Ea; [now exists body, t, q, e|].
+    exfalso. apply H. now destruct (forged_inert W lease s b Ea).
+  Qed.
+
+  (* ---------------------------------------------------------------- C06: one delivery per commit *)
+
+  Lemma dispatch_deliver_marks W prot s e q t body :
+    deliveries (snd (dispatch W prot s e q t body)) = [] \/
+    (deliveries (snd (dispatch W prot s e q t body)) = [(body, e, q)] /\
+     marks (snd (dispatch W prot s e q t body)) = [(e, q)]).
+  Proof.
+    rewrite dispatch_deliveries. destruct ((t =? 23) && negb (e =? 0)) eqn:E; [|now left].
+    right. split; [reflexivity|]. apply andb_prop in E. destruct E as [E1 E2].
+    assert (t = 23) by lia. subst t. unfold Rec13.dispatch. cbn [N.eqb Pos.eqb decode_content].
+    destruct (e =? 0); [discriminate|reflexivity].
+  Qed.
+
+  Lemma recv_record_deliver_marks W lease s b :
+    sublist (RecvSound.recnums (deliveries (snd (recv_record W lease s b)))) (marks (snd (recv_record W lease s b))).
+  Proof.
+    unfold Rec13.recv_record. destruct b as [|c b']; [exact I|].
+    destruct (is_ct13 c); [|rewrite legacy_deliveries; apply RecvSound.sublist_nil_l].
+    unfold Rec13.recv_cipher.
+    destruct (parse_crec s (c :: b')) as [[h ct]|]; [|exact I].
+    destruct (negb (has_prot s)); [exact I|].
+    destruct (open_record s h ct) as [body t q e | | ]; [|exact I|exact I].
+    destruct (get_win W e _) as [mx w]. destruct (negb (check mx w q)); [exact I|].
+    destruct (maxseq48 <? q); [exact I|].
+    destruct (dispatch_deliver_marks W true (with_wins s (ensure_wins W maxseq64 e (r_wins s))) e q t body) as [-> | [-> ->]].
+    - apply RecvSound.sublist_nil_l.
+    - cbn. auto.
+  Qed.
+
+  Lemma recv_list_deliver_marks W lease : forall rs s,
+    sublist (RecvSound.recnums (deliveries (snd (recv_list W lease s rs)))) (marks (snd (recv_list W lease s rs))).
+  Proof.
+    induction rs as [|r rs IH]; intro s; [exact I|].
+    cbn [Rec13.recv_list]. pose proof (recv_record_deliver_marks W lease s r) as H1.
+    destruct (recv_record W lease s r) as [s1 o1]. cbn [snd] in H1.
+    destruct (existsb is_err o1); [exact H1|].
+    specialize (IH s1). destruct (recv_list W lease s1 rs) as [s2 o2]. cbn [snd] in *.
+    rewrite deliveries_app, RecvSound.recnums_app, marks_app. now apply RecvSound.sublist_app.
+  Qed.
+
+  Lemma run_deliver_marks W : forall ops s,
+    sublist (RecvSound.recnums (deliveries (snd (run_ops W s ops)))) (marks (snd (run_ops W s ops))).
+  Proof.
+    induction ops as [|o ops IH]; intro s; [exact I|].
+    cbn [Rec13.run_ops].
+    assert (H1 : sublist (RecvSound.recnums (deliveries (snd (step W s o)))) (marks (snd (step W s o)))).
+    { destruct o as [d | e | e | cid neg rrc | ]; cbn [Rec13.step]; try exact I.
+      - unfold Rec13.recv13. destruct (r_closed s); [exact I|].
+        destruct (unpack_datagram13 s d); [apply recv_list_deliver_marks|exact I].
+      - destruct (r_closed s); [exact I|apply recv_list_deliver_marks]. }
+    destruct (step W s o) as [s1 o1]. cbn [snd] in H1.
+    specialize (IH s1). destruct (run_ops W s1 ops) as [s2 o2]. cbn [snd] in *.
+    rewrite deliveries_app, RecvSound.recnums_app, marks_app. now apply RecvSound.sublist_app.
+  Qed.
+
+  (* C06: over every history no (epoch, record number) is handed to Read twice *)
+  Theorem deliveries_nodup W cid neg rrc ops : N.of_nat W <= maxseq48 ->
+    NoDup (RecvSound.recnums (deliveries (snd (run_ops W (rinit cid neg rrc) ops)))).
+  Proof.
+    intro HW. eapply RecvSound.sublist_NoDup; [apply run_deliver_marks | now apply marks_nodup].
+  Qed.
+
+  (* ---------------------------------------------------------------- the parked queue is bounded *)
+
+  Lemma recv_record_queue W lease s b :
+    (length (r_queue (fst (recv_record W lease s b))) <= Nat.max (length (r_queue s)) max_queue)%nat.
+  Proof.
+    assert (Henq : forall s0, (length (r_queue (enqueue lease s0 b)) <= Nat.max (length (r_queue s0)) max_queue)%nat).
+    { intro s0. destruct (enqueue_spec lease s0 b) as [_ [-> | (-> & Hl & _)]]; [lia|].
+      rewrite app_length. cbn [length]. unfold max_queue in *. lia. }
+    assert (Hmark : forall prot s0 e q, r_queue (mark W prot s0 e q) = r_queue s0).
+    { intros prot s0 e q. unfold mark. destruct (get_win W e (r_wins s0)) as [mx w].
+      destruct (accept mx w q) as [w' isl]. destruct (prot && isl); reflexivity. }
+    assert (Hdisp : forall prot s0 e q t body, r_queue (fst (dispatch W prot s0 e q t body)) = r_queue s0).
+    { intros prot s0 e q t body. unfold Rec13.dispatch. destruct (t =? 22).
+      - destruct (hs_ok hs_room body); cbn [fst]; [apply Hmark|reflexivity].
+      - destruct (decode_content t body) as [p | level desc | | | ].
+        + destruct (e =? 0); cbn [fst]; [reflexivity|apply Hmark].
+        + destruct ((level =? 2) || (desc =? 0)); cbn [fst with_closed r_queue]; apply Hmark.
+        + destruct (e =? 0); cbn [fst]; [reflexivity|apply Hmark].
+        + destruct ((e =? 0) || negb (r_rrc s0)); cbn [fst]; [reflexivity|apply Hmark].
+        + destruct (e =? 0); reflexivity. }
+    unfold Rec13.recv_record. destruct b as [|c b']; [cbn; lia|].
+    destruct (is_ct13 c).
+    - unfold Rec13.recv_cipher. destruct (parse_crec s (c :: b')) as [[h ct]|]; [|cbn; lia].
+      destruct (negb (has_prot s)); [apply Henq|].
+      destruct (open_record s h ct) as [body t q e | | ].
+      + destruct (get_win W e _) as [mx w]. destruct (negb (check mx w q)); [cbn; lia|].
+        destruct (maxseq48 <? q); [cbn; lia|]. rewrite Hdisp. cbn. lia.
+      + cbn [fst]. destruct (queueable_epoch _ _); [apply Henq|lia].
+      + cbn. lia.
+    - unfold Rec13.recv_legacy. destruct (length (c :: b') <? 13)%nat; [cbn [fst]; lia|].
+      destruct (negb (legacy_version_ok (c :: b'))); [cbn [fst]; lia|].
+      destruct (r_epoch s <? _).
+      { cbn [fst]. destruct (max_future (r_epoch s) <? _); [lia|apply Henq]. }
+      destruct (get_win W _ _) as [mx w]. destruct (negb (check mx w _)); [cbn; lia|].
+      destruct (_ =? 0); [rewrite Hdisp; cbn; lia|].
+      destruct (negb (has_prot _)); [|cbn; lia].
+      cbn [fst]. etransitivity; [apply Henq|]. cbn. lia.
+  Qed.
+
+  Lemma recv_list_queue W lease : forall rs s, (length (r_queue s) <= max_queue)%nat ->
+    (length (r_queue (fst (recv_list W lease s rs))) <= max_queue)%nat.
+  Proof.
+    induction rs as [|r rs IH]; intros s H; [exact H|].
+    cbn [Rec13.recv_list]. pose proof (recv_record_queue W lease s r) as H1.
+    destruct (recv_record W lease s r) as [s1 o1]. cbn [fst] in H1.
+    destruct (existsb is_err o1); [cbn [fst]; lia|].
+    assert (H2 : (length (r_queue s1) <= max_queue)%nat) by lia.
+    specialize (IH s1 H2). destruct (recv_list W lease s1 rs) as [s2 o2]. exact IH.
+  Qed.
+
+  Theorem queue_bounded W cid neg rrc ops :
+    (length (r_queue (fst (run_ops W (rinit cid neg rrc) ops))) <= max_queue)%nat.
+  Proof.
+    assert (H : forall ops s, (length (r_queue s) <= max_queue)%nat ->
+                         (length (r_queue (fst (run_ops W s ops))) <= max_queue)%nat).
+    { clear ops. induction ops as [|o ops IH]; intros s Hs; [exact Hs|].
+      cbn [Rec13.run_ops].
+      assert (H1 : (length (r_queue (fst (step W s o))) <= max_queue)%nat).
+      { destruct o as [d | e | e | cid' neg' rrc' | ]; cbn [Rec13.step]; try exact Hs.
+        - unfold Rec13.recv13. destruct (r_closed s); [exact Hs|].
+          destruct (unpack_datagram13 s d); [now apply recv_list_queue|exact Hs].
+        - destruct (r_closed s); [exact Hs|]. apply recv_list_queue. cbn. lia. }
+      destruct (step W s o) as [s1 o1]. cbn [fst] in H1.
+      specialize (IH s1 H1). destruct (run_ops W s1 ops) as [s2 o2]. exact IH. }
+    apply H. cbn. lia.
+  Qed.
+
+  (* ---------------------------------------------------------------- generations are never dropped *)
+
+  Lemma has_gen_install s e e' : has_gen s e = true -> has_gen (install_read s e') e = true.
+  Proof.
+    unfold has_gen, install_read. cbn [r_cur r_old].
+    destruct (r_cur s) as [p|].
+    - intro H. apply orb_true_iff in H. destruct ((p =? e') || mem_N p (r_old s)) eqn:E.
+      + destruct H as [H | H]; [|rewrite H; apply orb_true_r].
+        assert (p = e) by lia. subst p. apply orb_true_iff in E. destruct E as [E | E].
+        * assert (e = e') by lia. subst. now rewrite N.eqb_refl.
+        * rewrite E. apply orb_true_r.
+      + apply orb_true_iff. right. apply mem_N_In. apply in_app_iff.
+        destruct H as [H | H]; [right; left; lia|left; now apply mem_N_In].
+    - intro H. rewrite H. apply orb_true_r.
+  Qed.
+
+  (* receiving never touches the key state, the remote epoch or the negotiated extensions *)
+  Definition keys_same (s s' : rstate) : Prop :=
+    r_epoch s' = r_epoch s /\ r_cur s' = r_cur s /\ r_old s' = r_old s /\
+    r_cid s' = r_cid s /\ r_cidneg s' = r_cidneg s /\ r_rrc s' = r_rrc s.
+
+  Lemma keys_same_refl s : keys_same s s.
+  Proof. unfold keys_same; auto 10. Qed.
+
+  Lemma keys_same_trans a b c : keys_same a b -> keys_same b c -> keys_same a c.
+  Proof. unfold keys_same. intuition congruence. Qed.
+
+  Lemma keys_same_mark W prot s e q : keys_same s (mark W prot s e q).
+  Proof.
+    unfold mark. destruct (get_win W e (r_wins s)) as [mx w]. destruct (accept mx w q) as [w' isl].
+    destruct (prot && isl); unfold keys_same; cbn; auto 10.
+  Qed.
+
+  Lemma keys_same_enqueue lease s b : keys_same s (enqueue lease s b).
+  Proof. destruct (enqueue_spec lease s b) as [(H1 & H2 & H3 & H4 & H5 & H6 & H7 & H8 & H9) _]. unfold keys_same. auto 10. Qed.
+
+  Lemma keys_same_dispatch W prot s e q t body : keys_same s (fst (dispatch W prot s e q t body)).
+  Proof.
+    unfold Rec13.dispatch. destruct (t =? 22).
+    - destruct (hs_ok hs_room body); cbn [fst]; [apply keys_same_mark|apply keys_same_refl].
+    - destruct (decode_content t body) as [p | level desc | | | ].
+      + destruct (e =? 0); cbn [fst]; [apply keys_same_refl|apply keys_same_mark].
+      + destruct ((level =? 2) || (desc =? 0)); cbn [fst]; [|apply keys_same_mark].
+        eapply keys_same_trans; [apply keys_same_mark|]. unfold keys_same; cbn; auto 10.
+      + destruct (e =? 0); cbn [fst]; [apply keys_same_refl|apply keys_same_mark].
+      + destruct ((e =? 0) || negb (r_rrc s)); cbn [fst]; [apply keys_same_refl|apply keys_same_mark].
+      + destruct (e =? 0); apply keys_same_refl.
+  Qed.
+
+  Lemma keys_same_wins s ws : keys_same s (with_wins s ws).
+  Proof. unfold keys_same; cbn; auto 10. Qed.
+
+  Lemma recv_record_keys W lease s b : keys_same s (fst (recv_record W lease s b)).
+  Proof.
+    unfold Rec13.recv_record. destruct b as [|c b']; [apply keys_same_refl|].
+    destruct (is_ct13 c).
+    - unfold Rec13.recv_cipher. destruct (parse_crec s (c :: b')) as [[h ct]|]; [|apply keys_same_refl].
+      destruct (negb (has_prot s)); [apply keys_same_enqueue|].
+      destruct (open_record s h ct) as [body t q e | | ].
+      + destruct (get_win W e _) as [mx w]. destruct (negb (check mx w q)); [apply keys_same_wins|].
+        destruct (maxseq48 <? q); [apply keys_same_wins|].
+        eapply keys_same_trans; [apply keys_same_wins|apply keys_same_dispatch].
+      + cbn [fst]. destruct (queueable_epoch _ _); [apply keys_same_enqueue|apply keys_same_refl].
+      + apply keys_same_refl.
+    - unfold Rec13.recv_legacy. destruct (length (c :: b') <? 13)%nat; [apply keys_same_refl|].
+      destruct (negb (legacy_version_ok (c :: b'))); [apply keys_same_refl|].
+      destruct (r_epoch s <? _).
+      { cbn [fst]. destruct (max_future (r_epoch s) <? _); [apply keys_same_refl|apply keys_same_enqueue]. }
+      destruct (get_win W _ _) as [mx w]. destruct (negb (check mx w _)); [apply keys_same_wins|].
+      destruct (_ =? 0); [eapply keys_same_trans; [apply keys_same_wins|apply keys_same_dispatch]|].
+      destruct (negb (has_prot _)); [|apply keys_same_wins].
+      cbn [fst]. eapply keys_same_trans; [apply keys_same_wins|apply keys_same_enqueue].
+  Qed.
+
+  Lemma recv_list_keys W lease : forall rs s, keys_same s (fst (recv_list W lease s rs)).
+  Proof.
+    induction rs as [|r rs IH]; intro s; [apply keys_same_refl|].
+    cbn [Rec13.recv_list]. pose proof (recv_record_keys W lease s r) as H1.
+    destruct (recv_record W lease s r) as [s1 o1]. cbn [fst] in H1.
+    destruct (existsb is_err o1); [exact H1|].
+    specialize (IH s1). destruct (recv_list W lease s1 rs) as [s2 o2]. cbn [fst] in *.
+    eapply keys_same_trans; eauto.
+  Qed.
+
+  (* what the code does with old generations: every generation ever installed stays installed, for
+     every later history (TrafficKeyState.readOld is never pruned) *)
+  Theorem generations_retained W : forall ops s e,
+    has_gen s e = true -> has_gen (fst (run_ops W s ops)) e = true.
+  Proof.
+    induction ops as [|o ops IH]; intros s e H; [exact H|].
+    cbn [Rec13.run_ops].
+    assert (H1 : has_gen (fst (step W s o)) e = true).
+    { destruct o as [d | e' | e' | cid neg rrc | ]; cbn [Rec13.step fst].
+      - unfold Rec13.recv13. destruct (r_closed s); [exact H|].
+        destruct (unpack_datagram13 s d) as [rs|]; [|exact H].
+        destruct (recv_list_keys W true rs s) as (_ & Hc & Ho & _). unfold has_gen in *. now rewrite Hc, Ho.
+      - now apply has_gen_install.
+      - exact H.
+      - exact H.
+      - destruct (r_closed s); [exact H|].
+        destruct (recv_list_keys W false (r_queue s) (with_queue s [])) as (_ & Hc & Ho & _).
+        unfold has_gen in *. rewrite Hc, Ho. exact H. }
+    destruct (step W s o) as [s1 o1]. cbn [fst] in H1.
+    specialize (IH s1 e H1). destruct (run_ops W s1 ops) as [s2 o2]. exact IH.
+  Qed.
+
+  (* ... and its replay detector and highest number are only ever touched by records of its own epoch:
+     installing generations or changing the remote epoch leaves every window as it is *)
+  Theorem key_ops_keep_windows W s o :
+    match o with Arrive _ | Drain => True
+    | _ => r_wins (fst (step W s o)) = r_wins s /\ r_high (fst (step W s o)) = r_high s end.
+  Proof. destruct o; cbn; auto. Qed.
+
+  (* ---------------------------------------------------------------- authentic records and the window *)
+
+  (* C06 at the connection: an authentic application record of a protected epoch, on an open
+     connection with keys, is delivered exactly when its own epoch's replay detector accepts the
+     rebuilt record number (and the number fits the 48 bits of the re-marshalled header) *)
+  Theorem authentic_delivered_iff_window W lease s b p q e :
+    auth_cipher s b = Some (p, 23, q, e) -> has_prot s = true -> e <> 0 -> q <= maxseq48 ->
+    deliveries (snd (recv_cipher W lease s b)) =
+    if check (fst (get_win W e (ensure_wins W maxseq64 e (r_wins s))))
+             (snd (get_win W e (ensure_wins W maxseq64 e (r_wins s)))) q
+    then [(p, e, q)] else [].
+  Proof.
+    intros Ha Hp He Hq. rewrite cipher_deliveries, Ha, Hp. cbn [andb].
+    destruct (check _ _ q); [|reflexivity]. cbn [andb].
+    assert (H1 : q <=? maxseq48 = true) by lia. assert (H2 : e =? 0 = false) by lia.
+    rewrite H1, H2. reflexivity.
+  Qed.
+
+  Lemma dispatch_acks W prot s e q t body e' q' body' :
+    In (OAck e' q' body') (snd (dispatch W prot s e q t body)) -> e' = e /\ q' = q /\ body' = body /\ e <> 0.
+  Proof.
+    unfold Rec13.dispatch. destruct (t =? 22).
+    { destruct (hs_ok hs_room body); cbn; [intros [H | [H | []]]; discriminate | intros []]. }
+    destruct (decode_content t body) as [p | level desc | | | ].
+    - destruct (e =? 0); cbn; [intros [H | [H | []]]; discriminate | intros [H | [H | []]]; discriminate].
+    - destruct ((level =? 2) || (desc =? 0)); destruct (desc =? 0); cbn;
+        intros H; repeat (destruct H as [H | H]; [discriminate|]); destruct H.
+    - destruct (e =? 0) eqn:E0; cbn; [intros []|].
+      intros [H | [H | []]]; [discriminate|]. inversion H; subst. repeat split; auto. lia.
+    - destruct ((e =? 0) || negb (r_rrc s)); cbn; intros H; repeat (destruct H as [H | H]; [discriminate|]); destruct H.
+    - destruct (e =? 0); cbn; [intros [] | intros [H | [H | []]]; discriminate].
+  Qed.
+
+  (* only authentic ACK records of a protected epoch reach the handshake layer (unprotected ACKs are
+     discarded) *)
+  Theorem ack_only_authentic W lease s b e q body :
+    In (OAck e q body) (snd (recv_record W lease s b)) ->
+    e <> 0 /\ auth_cipher s b = Some (body, 26, q, e).
+  Proof.
+    unfold Rec13.recv_record. destruct b as [|c b']; [intros []|].
+    destruct (is_ct13 c).
+    - unfold auth_cipher, Rec13.recv_cipher.
+      destruct (parse_crec s (c :: b')) as [[h ct]|]; [|intros []].
+      destruct (negb (has_prot s)); [intros []|].
+      destruct (open_record s h ct) as [body' t q' e' | | ]; [|intros []|intros []].
+      destruct (get_win W e' _) as [mx w]. destruct (negb (check mx w q')); [intros []|].
+      destruct (maxseq48 <? q'); [intros []|].
+      intro H. pose proof H as H0. apply dispatch_acks in H. destruct H as (-> & -> & -> & He). split; [exact He|].
+      (* the inner type is 26 *)
+      unfold Rec13.dispatch in H0. destruct (t =? 22) eqn:E22.
+      { destruct (hs_ok hs_room body'); cbn in H0; repeat (destruct H0 as [H0 | H0]; [discriminate|]); destruct H0. }
+      unfold decode_content in H0.
+      destruct (t =? 21) eqn:E21.
+      { destruct body' as [|l [|d [|x y]]]; cbn in H0; try (destruct (e' =? 0); cbn in H0);
+          try (destruct ((l =? 2) || (d =? 0)); destruct (d =? 0); cbn in H0);
+          repeat (destruct H0 as [H0 | H0]; [discriminate|]); try destruct H0. }
+      destruct (t =? 23) eqn:E23.
+      { destruct (e' =? 0); cbn in H0; repeat (destruct H0 as [H0 | H0]; [discriminate|]); destruct H0. }
+      destruct (t =? 26) eqn:E26; [assert (t = 26) by lia; now subst|].
+      destruct (t =? 27).
+      { destruct (rrc_ok body'); [destruct ((e' =? 0) || negb (r_rrc _))|destruct (e' =? 0)]; cbn in H0;
+          repeat (destruct H0 as [H0 | H0]; [discriminate|]); destruct H0. }
+      destruct (e' =? 0); cbn in H0; repeat (destruct H0 as [H0 | H0]; [discriminate|]); destruct H0.
+    - unfold Rec13.recv_legacy.
+      destruct (length (c :: b') <? 13)%nat; [intros []|].
+      destruct (negb (legacy_version_ok (c :: b'))); [intros []|].
+      destruct (r_epoch s <? _); [intros []|].
+      destruct (get_win W _ _) as [mx w]. destruct (negb (check mx w _)); [intros []|].
+      destruct (_ =? 0) eqn:E0.
+      + intro H. apply dispatch_acks in H. destruct H as (-> & _ & _ & He). lia.
+      + destruct (negb (has_prot _)); intros [].
+  Qed.
 End Recv.
+
+(* ------------------------------------------------------------------ the AEAD idealisation *)
+
+Section Ideal.
+  Variable snmask : N -> bytes -> N.
+  Variable aopen : N -> N -> bytes -> bytes -> option bytes.
+  Variable hs_room : bytes -> bool.
+  (* what the peer sealed: (generation = epoch, record number = nonce, additional data, ciphertext, inner plaintext) *)
+  Variable log : list (N * N * bytes * bytes * bytes).
+  (* INT-CTXT, idealised: a generation's AEAD opens only what was sealed under that generation with
+     the same record number and the same additional data *)
+  Hypothesis ideal : forall e q a c i, aopen e q a c = Some i -> In (e, q, a, c, i) log.
+
+  (* C05: whatever Read receives is the content of ONE application-data record that the peer sealed
+     under a generation the receiver retains and has authorised (epoch <= remote epoch, epoch <> 0),
+     with the record number the sender used (it is the AEAD nonce) equal to the number rebuilt from
+     the unmasked wire bits, and with additional data equal to the header as received (so the
+     connection id, the S/L bits, the epoch bits, the clear record-number bits and the length are
+     the sender's) *)
+  Theorem deliver_only_sealed W lease s b p e q :
+    In (p, e, q) (deliveries (snd (recv_record snmask aopen hs_room W lease s b))) ->
+    e <> 0 /\ q <= maxseq48 /\ has_gen s e = true /\ e <= r_epoch s /\
+    exists h ct inner,
+      parse_crec s b = Some (h, ct) /\ e mod 4 = u_elow h /\
+      let clear := apply_mask h (snmask e ct) in
+      q = reconstruct (u_seq clear) (u_sbit clear) (get_high e (r_high s)) /\
+      In (e, q, uh_marshal clear, ct, inner) log /\ inner_unmarshal inner = Some (p, 23).
+  Proof.
+    intro H. apply recv_record_deliver in H. destruct H as (Ha & He & _ & Hq).
+    apply (auth_cipher_spec snmask aopen hs_room) in Ha. destruct Ha as (h & ct & inner & Hp & Hg & Hm & Hle & Hrec & Hopen & Hin & _).
+    split; [exact He|]. split; [exact Hq|]. split; [exact Hg|]. split; [exact Hle|].
+    exists h, ct, inner. cbn zeta in *. split; [exact Hp|]. split; [exact Hm|].
+    split; [exact Hrec|]. split; [|exact Hin]. apply ideal. exact Hopen.
+  Qed.
+
+  Theorem run_deliver_sealed W ops s p e q :
+    In (p, e, q) (deliveries (snd (run_ops snmask aopen hs_room W s ops))) ->
+    e <> 0 /\ exists a c i, In (e, q, a, c, i) log /\ inner_unmarshal i = Some (p, 23).
+  Proof.
+    intro H. apply in_deliveries in H. apply run_origin in H. destruct H as (lease & s' & r & H).
+    apply in_deliveries in H. apply deliver_only_sealed in H.
+    destruct H as (He & _ & _ & _ & h & ct & inner & _ & _ & _ & Hl & Hi). split; [exact He|]. eauto.
+  Qed.
+
+  (* every commit of a replay slot in a protected epoch - i.e. every record the endpoint acted on:
+     application data, alert, handshake (incl. KeyUpdate), ACK, RRC - is a tuple the peer sealed *)
+  Theorem run_marks_sealed W ops s e q :
+    In (e, q) (marks (snd (run_ops snmask aopen hs_room W s ops))) ->
+    e = 0 \/ exists a c i, In (e, q, a, c, i) log.
+  Proof.
+    intro H. apply in_marks in H. apply run_origin in H. destruct H as (lease & s' & r & H).
+    apply in_marks in H. unfold Rec13.recv_record in H. destruct r as [|c r']; [destruct H|].
+    destruct (is_ct13 c).
+    - right. apply recv_cipher_marks in H. destruct H as (body & t & H). apply (auth_cipher_spec snmask aopen hs_room) in H.
+      destruct H as (h & ct & inner & _ & _ & _ & _ & _ & Hopen & _). eauto.
+    - left. eapply recv_legacy_marks; eauto.
+  Qed.
+
+  (* a ciphertext record has a visible effect only if it was sealed by the peer *)
+  Theorem effect_only_sealed W lease s b :
+    snd (recv_cipher snmask aopen hs_room W lease s b) <> [] ->
+    exists e q a c i, In (e, q, a, c, i) log.
+  Proof.
+    intro H. apply effect_only_authentic in H. destruct H as (body & t & q & e & H).
+    apply (auth_cipher_spec snmask aopen hs_room) in H. destruct H as (h & ct & inner & _ & _ & _ & _ & _ & Hopen & _). eauto 10.
+  Qed.
+
+  (* nothing sealed, nothing happens: with an empty log every ciphertext record is inert *)
+  Corollary nothing_sealed_inert W lease s b : log = [] ->
+    snd (recv_cipher snmask aopen hs_room W lease s b) = [].
+  Proof.
+    intro Hl. destruct (snd (recv_cipher snmask aopen hs_room W lease s b)) as [|o os] eqn:E; [reflexivity|].
+    exfalso. assert (H : snd (recv_cipher snmask aopen hs_room W lease s b) <> []) by (rewrite E; discriminate).
+    apply effect_only_sealed in H. destruct H as (e & q & a & c & i & H). rewrite Hl in H. destruct H.
+  Qed.
+
+  (* the record on the wire is the peer's: its header, with the record-number bits unmasked, is the
+     additional data of a sealed tuple, and its body is that tuple's ciphertext *)
+  Definition emitted_wire (x : N * N * bytes * bytes * bytes) (b : bytes) : Prop :=
+    let '(e, _, a, c, _) := x in
+    exists clear, uh_seq_ok clear /\ a = uh_marshal clear /\ b = uh_marshal (apply_mask clear (snmask e c)) ++ c.
+
+  Lemma parse_crec_inv s b h ct : parse_crec s b = Some (h, ct) ->
+    exists n, uh_unmarshal n b = Some (h, ct) /\ (bit_c (hd 0 b) = true -> (0 < n)%nat).
+  Proof.
+    unfold parse_crec, cid_policy.
+    set (has := negb (is_nil (r_cid s))).
+    assert (Hpol : forall (P : bool * bool -> option (uhdr * bytes)),
+               (if r_cidneg s then P (has, has) else P (false, has)) = Some (h, ct) ->
+               exists expected, P (expected, has) = Some (h, ct)).
+    { intros P HP. destruct (r_cidneg s); eauto. }
+    intro H.
+    destruct (r_cidneg s);
+      (destruct (bit_c (hd 0 b) && negb has) eqn:Ea; [discriminate|];
+       destruct (crec_unmarshal (if bit_c (hd 0 b) then length (r_cid s) else 0%nat) b) as [[h' ct']|] eqn:Ec; [|discriminate];
+       assert (Heq : (h', ct') = (h, ct))
+         by (repeat match type of H with (if ?c then _ else _) = _ => destruct c; try discriminate end; now inversion H);
+       inversion Heq; subst h' ct';
+       exists (if bit_c (hd 0 b) then length (r_cid s) else 0%nat); split;
+       [unfold crec_unmarshal in Ec; destruct (uh_unmarshal _ b) as [[h2 r2]|]; [|discriminate];
+        repeat match type of Ec with (if ?c then _ else _) = _ => destruct c; try discriminate end; now inversion Ec
+       |intro Hc; rewrite Hc in *; cbn [andb] in Ea; apply negb_false_iff in Ea; unfold has in Ea;
+        apply negb_true_iff in Ea; destruct (r_cid s); [discriminate|cbn; lia]]).
+  Qed.
+
+  (* C05, "altered in any byte": a record that authenticates is byte-for-byte a record built from a
+     tuple the peer sealed - same flags byte (fixed bits, C, S, L, epoch bits), same connection id,
+     same (masked) record-number bytes, same length field, same ciphertext and tag *)
+  Theorem authentic_is_emitted s b body t q e : bytes_ok b = true ->
+    auth_cipher snmask aopen s b = Some (body, t, q, e) ->
+    exists a c i, In (e, q, a, c, i) log /\ emitted_wire (e, q, a, c, i) b.
+  Proof.
+    intros Hok Ha. apply (auth_cipher_spec snmask aopen hs_room) in Ha.
+    destruct Ha as (h & ct & inner & Hp & _ & _ & _ & _ & Hopen & _). cbn zeta in Hopen.
+    apply parse_crec_inv in Hp. destruct Hp as (n & Hu & Hc).
+    pose proof (uh_unmarshal_inv n b h ct Hok Hu Hc) as Hb.
+    pose proof (uh_unmarshal_seq_ok n b h ct Hok Hu) as Hs.
+    exists (uh_marshal (apply_mask h (snmask e ct))), ct, inner. split; [now apply ideal|].
+    unfold emitted_wire. exists (apply_mask h (snmask e ct)).
+    split; [now apply apply_mask_seq_ok|]. split; [reflexivity|].
+    rewrite apply_mask_invol by exact Hs. exact Hb.
+  Qed.
+
+  (* ... hence a record that differs in any byte from every record built from the peer's sealed
+     tuples - altered header, connection id, record-number bytes, epoch bits, length, ciphertext or
+     tag, truncated or extended - does not authenticate, and is inert by forged_inert *)
+  Corollary altered_not_authentic s b : bytes_ok b = true ->
+    (forall x, In x log -> ~ emitted_wire x b) -> auth_cipher snmask aopen s b = None.
+  Proof.
+    intros Hok Hno. destruct (auth_cipher snmask aopen s b) as [[[[body t] q] e]|] eqn:Ea; [|reflexivity].
+    exfalso. destruct (authentic_is_emitted s b body t q e Hok Ea) as (a & c & i & Hin & Hw).
+    exact (Hno _ Hin Hw).
+  Qed.
+End Ideal.
